@@ -13,7 +13,7 @@ LEVEL = "exploration"
 WORKERS = {"quick": 8, "thorough": 16}
 BUDGET = {"quick": 150, "thorough": 420}
 MIN_NONTRIVIAL = {"quick": 2000, "thorough": 30000}
-REQUIRED_HOOKS = ["hetero-pair", "size-pair", "evaluate:I", "evaluate:C", "direct", "IntType.__lt__", "IntType.__eq__", "ListType.__eq__", "MapType.__eq__", "MapType.__ne__", "DoubleType.__eq__", "UintType.__eq__"]
+REQUIRED_HOOKS = ["hetero-pair", "size-pair", "nested-relation", "evaluate:I", "evaluate:C", "direct", "IntType.__lt__", "IntType.__eq__", "ListType.__eq__", "MapType.__eq__", "MapType.__ne__", "DoubleType.__eq__", "UintType.__eq__"]
 RULE = (
     "Pairs and triples of same-type values (int, uint, double without NaN, string, bytes, bool, timestamp, duration; lists and maps of those, nested to depth 2; null) "
     "drawn with high collision probability: equal-but-not-identical copies, neighbours (v+-1, one more character, a prefix), -0.0/0.0, the same instant written with "
@@ -307,6 +307,40 @@ class Checker:
             if not found:
                 self.report(f"{mode}:{r}", tname, "combined-list", rel, diag.oclass(out).split("@")[0], "list of bools", a, b, src)
 
+    def nested_pair(self, a, b, t):
+        """The relations evaluated INSIDE nested macro bodies, the outer variable compared with the inner one: the matrix over
+        {a, b} x {a, b} must be what the relations give at the top level."""
+        acc = self.acc
+        tname = self.typename(t)
+        ordered = a[0] in ORDERED
+        ops = ["==", "!="] + (["<", "<="] if ordered else [])
+        src = "[x, y].map(p, [x, y].map(q, [" + ", ".join(f"p {o} q" for o in ops) + "]))"
+        want = []
+        for u in (a, b):
+            row = []
+            for v in (a, b):
+                rel = model_rel(u, v)
+                row.append([EXPECT[rel][o] for o in ops])
+            want.append(row)
+        alls = "[x, y].all(p, [p].all(q, q == p && !(q != p)))"
+        benv = MV.cel_env({"x": a, "y": b})
+        for r in "IC":
+            out = core.eval_cached(r, src, benv)
+            o2 = core.eval_cached(r, alls, benv)
+            acc.hook("evaluate:" + r, 2)
+            acc.hook("nested-relation")
+            acc.evaluations += 2
+            got = None
+            if out[0] == "V":
+                try:
+                    got = [[[z[1] for z in cell[1]] for cell in row[1]] for row in out[1][1]]
+                except Exception:
+                    got = None
+            ok = got == want and o2 == ["V", ["BoolType", True]]
+            acc.cell(tname, "nested", r, "ok" if ok else "differ")
+            if not ok:
+                self.report(f"nested:{r}", tname, "relations-inside-nested-macros", model_rel(a, b), str(got if got != want else o2)[:80], str(want)[:80], a, b, src)
+
     def engine_triple(self, a, b, c, t):
         """Transitivity through CEL expressions."""
         tname = self.typename(t)
@@ -499,6 +533,8 @@ def run(ctx):
             acc.nt([MV.enc(a), MV.enc(b)])
         ck.direct_pair(a, b, t)
         ck.engine_pair(a, b, t)
+        if j % 3 == 0:
+            ck.nested_pair(a, b, t)
         if j % 4 == 0:
             c = neighbour(rnd, b) if rnd.random() < 0.6 else small_value(rnd, t)
             if not has_nan(c):
